@@ -606,6 +606,100 @@ func c19Wrap(c *Ctx, r *Result) {
 					ok = true
 				}
 			}
+			// the conversion in a helper: Run's error is handed to a module function that returns
+			// it unchanged or, where it is non-nil and failed both type tests, the NewRuntimeError
+			if !ok {
+				wrapsCond := func(g *ssa.Function) bool {
+					for _, w := range callSites(g, func(name string, _ ssa.CallInstruction) bool {
+						return strings.HasSuffix(name, "ECALRuntimeProvider.NewRuntimeError")
+					}) {
+						f := FactsAt(w)
+						failedAsserts := 0
+						for v := range f.FalseV {
+							if e, isE := v.(*ssa.Extract); isE && e.Index == 1 {
+								if ta, isTA := e.Tuple.(*ssa.TypeAssert); isTA && ta.CommaOk && strings.Contains(types.TypeString(ta.AssertedType, nil), "RuntimeError") {
+									if _, isPrm := ta.X.(*ssa.Parameter); isPrm {
+										failedAsserts++
+									}
+								}
+							}
+						}
+						nonNil := false
+						for _, prm := range g.Params {
+							if f.NonNil[prm.Name()] && prm.Type().String() == "error" {
+								nonNil = true
+							}
+						}
+						if failedAsserts < 2 || !nonNil {
+							continue
+						}
+						// the wrapped error is what the helper returns on that path
+						wv, _ := w.(ssa.Value)
+						for _, rv := range returnedValues(g, g.Signature.Results().Len()-1) {
+							x := rv
+							for d := 0; d < 4 && x != nil; d++ {
+								if x == wv {
+									return true
+								}
+								switch y := x.(type) {
+								case *ssa.MakeInterface:
+									x = y.X
+								case *ssa.ChangeInterface:
+									x = y.X
+								case *ssa.TypeAssert:
+									x = y.X
+								default:
+									x = nil
+								}
+							}
+						}
+					}
+					return false
+				}
+				var runErr ssa.Value
+				if rv, isVal := run.(ssa.Value); isVal {
+					for _, ref := range *rv.Referrers() {
+						if e, isE := ref.(*ssa.Extract); isE && e.Index == 1 {
+							runErr = e
+						}
+					}
+				}
+				var flowsFromRun func(v ssa.Value, d int) bool
+				flowsFromRun = func(v ssa.Value, d int) bool {
+					if v == runErr && v != nil {
+						return true
+					}
+					if d > 3 {
+						return false
+					}
+					switch x := unspill(v).(type) {
+					case *ssa.Phi:
+						for _, e := range x.Edges {
+							if flowsFromRun(e, d+1) {
+								return true
+							}
+						}
+					case *ssa.Extract:
+						return ssa.Value(x) == runErr
+					}
+					return false
+				}
+				allInstrs(fn, func(in ssa.Instruction) {
+					call, isCall := in.(*ssa.Call)
+					if !isCall || !dominates(run, in) {
+						return
+					}
+					g := call.Call.StaticCallee()
+					if g == nil || !c.inModule(g) || g.Signature.Results().Len() == 0 || g.Signature.Results().At(g.Signature.Results().Len()-1).Type().String() != "error" {
+						return
+					}
+					for _, a := range call.Call.Args {
+						if a.Type().String() == "error" && flowsFromRun(a, 0) && wrapsCond(g) {
+							ok = true
+						}
+					}
+				})
+			}
 			if ok {
 				r.Instance("R19c-wrap", site, pos, "ok", "an error that is neither *RuntimeError nor *RuntimeErrorWithDetail is replaced by NewRuntimeError", true)
 			} else {
